@@ -1,2 +1,2 @@
 from . import linejobs, monitors  # noqa
-from . import comp, envworld, compchecks  # noqa
+from . import comp, envworld, rmworld, maintworld, compchecks  # noqa
